@@ -1660,6 +1660,7 @@ func (sa *Application) tryNode(node *Node, ask *Allocation) (*AllocationResult, 
 	}
 
 	// everything OK really allocate
+	verifGate("tryNode.beforeNodeAdd", allocationKey)
 	if node.TryAddAllocation(ask) {
 		if err := sa.queue.TryIncAllocatedResource(ask.GetAllocatedResource()); err != nil {
 			log.Log(log.SchedApplication).DPanic("queue update failed unexpectedly",
